@@ -509,13 +509,24 @@ class Side:
 				value = 0
 				for _, bit in chosen:
 					value |= bit
-				form = rng.choice(['names', 'names', 'int', 'object'])
-				if 'names' == form:
-					rng.shuffle(chosen)
+				form = rng.choice(['names', 'names', 'names-repeated', 'names-repeated', 'names-all', 'int', 'object'])
+				if form.startswith('names'):
+					# a flags string names a *set*: every order, every multiplicity and any number of `none` describe the same value
+					if 'names-all' == form:
+						chosen = list(singles)
+						value = 0
+						for _, bit in chosen:
+							value |= bit
 					names = [name.lower() for name, _ in chosen]
-					if not names or rng.random() < 0.15:
-						names.insert(rng.randrange(len(names) + 1), 'none')
-					return w_str(' '.join(names)), str(value), 'flags:names'
+					if 'names' != form and names:
+						names = [name for name in names for _ in range(rng.choice([1, 1, 2, 2, 3]))]
+						if len(set(names)) == len(names):
+							names.append(rng.choice(names))
+					rng.shuffle(names)
+					if not names or rng.random() < (0.15 if 'names' == form else 0.5):
+						for _ in range(rng.choice([1, 1, 2])):
+							names.insert(rng.randrange(len(names) + 1), 'none')
+					return w_str(' '.join(names)), str(value), f'flags:{form}'
 				if 'int' == form:
 					return w_int(value), str(value), 'flags:int'
 				return w_codec(type_name, str(value)), str(value), 'flags:object'
@@ -564,7 +575,16 @@ class Side:
 				seen.add(key)
 			items.append(wire)
 			expected.append(value)
-		label = 'array:' + ('empty' if not items else 'one' if 1 == len(items) else 'many') + (':keyed' if kind['sortKey'] else '')
+		repeated = False
+		if items and rng.random() < (0.08 if kind['sortKey'] else 0.3):
+			# the same element again (a keyed array with a repeated key is created, and refused by serialize)
+			for _ in range(rng.choice([1, 1, 2])):
+				source = rng.randrange(len(items))
+				position = rng.randrange(len(items) + 1)
+				items.insert(position, items[source if source < position else source])
+				expected.insert(position, expected[source if source < position else source])
+			repeated = True
+		label = 'array:' + ('empty' if not items else 'one' if 1 == len(items) else 'many') + (':keyed' if kind['sortKey'] else '') + (':repeated-elements' if repeated else '')
 		return w_list(items), expected, label
 
 	def is_abstract_ref(self, field):
@@ -855,7 +875,9 @@ class Side:
 						ctx.fail('property', f'{self.label(case)}: size {transaction.size} != {len(data)} bytes', case)
 					self.check_decodes_back(case, entry, type_name, transaction, state, data)
 				elif 'err' == ser_status:
-					if not autosort and self.has_unsorted(type_name, expected):
+					if self.has_repeated_key(type_name, expected):
+						ctx.count('valid:repeated-key-refused-by-serialize')
+					elif not autosort and self.has_unsorted(type_name, expected):
 						ctx.count('valid:unsorted-refused-by-serialize')
 					else:
 						ctx.fail('property', f'{self.label(case)}: the created transaction does not serialize ({data})', dict(case, implementation=data))
@@ -872,6 +894,17 @@ class Side:
 		except UnicodeDecodeError:
 			return True
 		return int(members['registration_type']) == child and members['parent_id'] is None
+
+	def has_repeated_key(self, type_name, expected):
+		"""a keyed array must be strictly ascending: two elements with one key cannot be serialized, sorted or not"""
+		kinds = {field['name']: field['kind'] for field in self.net.carrying(type_name)}
+		for name, value in expected['f']:
+			kind = kinds[name]
+			if 'array' == kind['k'] and kind['sortKey'] and isinstance(value, list):
+				keys = [self.values.sort_key(kind['elem'], kind['sortKey'], element) for element in value]
+				if len(set(keys)) != len(keys):
+					return True
+		return False
 
 	def has_unsorted(self, type_name, expected):
 		return self.sorted_expected(type_name, expected) != expected
